@@ -351,6 +351,21 @@ impl Check for C02 {
                 emit(Case::new("numrange", text.into_bytes()));
             }
         }
+        // (1c) very wide containers (more direct children than the thread-local node buffer holds)
+        for (k, n) in [200_000usize, 420_000].iter().enumerate() {
+            if g.mine(7000 + k as u64) && (g.scale >= 0.5 || k == 0) {
+                let mut t = Vec::with_capacity(n * 2 + 2);
+                t.push(b'[');
+                for i in 0..*n {
+                    if i > 0 {
+                        t.push(b',');
+                    }
+                    t.push(b'0' + (i % 10) as u8);
+                }
+                t.push(b']');
+                emit(Case::new("wide", t));
+            }
+        }
         // (2) generated documents and mutations
         let mut r = g.rng(2);
         let n = g.count(120_000, 10_000_000);
@@ -370,6 +385,10 @@ impl Check for C02 {
         match c.entry.as_str() {
             "tok" => ctx.sample("token-sequence"),
             "doc" => ctx.sample("generated-document"),
+            "wide" => {
+                ctx.class("gen:wide-container");
+                ctx.sample("wide")
+            }
             "numrange" => {
                 ctx.class("gen:number-range");
                 ctx.sample("number-range")
